@@ -48,6 +48,25 @@ class Mon(Monitor):
                 if not any(c.lost for c in w.conns):
                     out.append(V('failed', 'failed-without-loss/%s' % val,
                                  'request %d (qos %d) failed with %s although no connection was lost' % (r.idx, r.qos, val)))
+        # the completing acknowledgement of a transmitted, unsettled message settles it in that very step
+        for ci, p in rx:
+            for r in pubs(w):
+                if r.msgId != p['msgId'] or r.addr != w.conns[ci].addr or ci != w.cur[r.addr] or not r.qos:
+                    continue
+                if not (r.ret == 'deferred' and r.call_step < w.step and not any(f[0] < w.step for f in r.fires)):
+                    continue
+                if not any(t[0] < w.step for t in r.tx):
+                    continue
+                c = w.conns[ci]
+                if c.connack_step is None or c.connack_step >= w.step or c.phase != 'connected' or \
+                        (c.close_req is not None and c.close_step < w.step) or (c.lost and c.lost_step < w.step):
+                    continue
+                done = (r.qos == 1 and p['type'] == 'PUBACK') or \
+                       (r.qos == 2 and p['type'] == 'PUBCOMP' and any(a[1] == 'PUBREC' and a[0] < w.step for a in r.acks))
+                if done and not r.fires:
+                    out.append(V('ignored', 'completing-ack-ignored/%s/q%d' % (p['type'], r.qos),
+                                 '%s(%d) delivered for transmitted request %d (qos %d) but its Deferred did not fire' % (
+                                     p['type'], p['msgId'], r.idx, r.qos)))
         for r in pubs(w):
             if r.call_step == w.step and r.qos == 0 and accepted(r) and not r.fires:
                 out.append(V('q0', 'q0-pending', 'QoS 0 publish returned a pending Deferred'))
